@@ -68,8 +68,9 @@ JudgeRetyped(o) ==
                   THEN Say(o.tid, "dev:decorator-declared-callable-erases-names")
              ELSE Say(o.tid, "viol:CallJudgedIdentically#" \o ToString(k))
 
-\* the deviation's exact footprint on one call: the defining module adds "missing_await" to what the importer reports
-\* and says Coroutine where the importer says Any
+\* the footprint of the defect repaired by repo b243661 on one call (only consulted when FixedAsyncGenInferred = FALSE,
+\* i.e. when a tree older than that commit is being checked): the defining module adds "missing_await" to what the
+\* importer reports and says Coroutine where the importer says Any
 AsyncGenFootprint(c) ==
     /\ c.nested.codes = c.defmod.codes
     /\ "missing_await" \notin ToSet(c.importer.codes)
@@ -84,6 +85,13 @@ JudgeGenerator(o) ==
        /\ (IF o.sigrt = ImplShapeSigRt(h, s) THEN TRUE ELSE Say(o.tid, "drift:sigrt"))
        /\ (IF RefSameSig(h, o.sigdef, o.sigrt) THEN TRUE ELSE Say(o.tid, "viol:HeaderViewsAgree"))
        /\ (IF RefMatchesInspect(o.sigrt, o.insp) THEN TRUE ELSE Say(o.tid, "viol:ViewsMatchInspect"))
+       \* "missing_await" is reported on a call exactly if the call is awaitable by CPython's rule, in every context
+       /\ \A k \in 1..Len(o.calls) :
+             IF \A ctx \in {"nested", "defmod", "importer"} :
+                    ("missing_await" \in ToSet(o.calls[k][ctx].codes)) = RefCallAwaitable(o.c)
+             THEN TRUE
+             ELSE IF Dev_AsyncGenInferredCoroutine(o.c) /\ AsyncGenFootprint(o.calls[k]) THEN TRUE   \* reported below
+             ELSE Say(o.tid, "viol:AwaitableIffCoroutine#" \o ToString(k))
        /\ \A k \in 1..Len(o.calls) :
              IF Call3Same(h, o.calls[k]) THEN TRUE
              ELSE IF Dev_AsyncGenInferredCoroutine(o.c) /\ AsyncGenFootprint(o.calls[k])
